@@ -133,6 +133,27 @@ fn run(descs: &[String]) -> Option<String> {
     }
     None
 }
+/// an event with a given time (through the real `log` and an installed channel logger): the line is still one JSON object, `time_ns`
+/// is the RFC 8259 integer secs * 10^9 + nanos, `time` a string
+fn run_time(secs: u64, nanos: u32) -> Option<String> {
+    let d = format!("jsonl time secs={secs} nanos={nanos}");
+    let (tx, rx) = std::sync::mpsc::sync_channel::<LogEvent>(4);
+    let guard = match servlin::log::set_global_logger(tx) { Ok(g) => g, Err(_) => return Some(format!("{d} expected=logger installed actual=already set")) };
+    let t = std::time::UNIX_EPOCH + std::time::Duration::new(secs, nanos);
+    let r = servlin::log::internal::log(t, Level::Info, vec![tag("a", 1u8)]);
+    drop(guard);
+    if r.is_err() { return Some(format!("{d} expected=Ok actual=LoggerStopped")); }
+    let ev = match rx.try_recv() { Ok(e) => e, Err(_) => return Some(format!("{d} expected=one event actual=none")) };
+    let mut out = Vec::new();
+    if let Err(e) = ev.write_jsonl(&mut out) { return Some(format!("{d} expected=Ok actual=Err({e})")); }
+    if out.last() != Some(&b'\n') || out[..out.len() - 1].contains(&b'\n') { return Some(format!("{d} expected=exactly one newline-terminated line actual={:?}", String::from_utf8_lossy(&out))); }
+    let shown = String::from_utf8_lossy(&out[..out.len() - 1]).to_string();
+    let m = match parse(&out[..out.len() - 1]) { Ok(J::Obj(m)) => m, Ok(_) => return Some(format!("{d} expected=object actual={shown:?}")), Err(e) => return Some(format!("{d} expected=valid JSON object actual=parse error: {e} in {shown:?}")) };
+    let want = (secs as u128 * 1_000_000_000 + nanos as u128).to_string();
+    match m.iter().find(|x| x.0 == "time_ns").map(|x| x.1.clone()) { Some(J::Num(n)) if n == want => {} other => return Some(format!("{d} expected=time_ns {want} actual={other:?} in {shown:?}")) }
+    if !matches!(m.iter().find(|x| x.0 == "time").map(|x| x.1.clone()), Some(J::Str(_))) { return Some(format!("{d} expected=time as a string actual={shown:?}")); }
+    None
+}
 fn unhex(r: &str) -> Vec<u8> { (0..r.len() / 2).map(|i| u8::from_str_radix(&r[2 * i..2 * i + 2], 16).unwrap()).collect() }
 fn hex(s: &str) -> String { s.bytes().map(|b| format!("{b:02x}")).collect() }
 fn main() {
@@ -140,6 +161,10 @@ fn main() {
     let args: Vec<String> = std::env::args().collect();
     if args.len() >= 3 && args[1] == "replay" {
         let w = args[2..].join(" ");
+        if w.contains("jsonl time ") {
+            let g = |k: &str| -> u64 { w.split(&format!("{k}=")).nth(1).unwrap().split(' ').next().unwrap().parse().unwrap() };
+            match std::panic::catch_unwind(|| run_time(g("secs"), g("nanos") as u32)) { Ok(Some(m)) => { println!("WITNESS {m}"); std::process::exit(1) } Ok(None) => { println!("OK witness no longer fails"); std::process::exit(0) } Err(_) => { println!("WITNESS jsonl time expected=no-panic actual=panic"); std::process::exit(1) } }
+        }
         let descs: Vec<String> = w.split("tags=").nth(1).unwrap().split(' ').next().unwrap().split(',').filter(|s| !s.is_empty()).map(String::from).collect();
         match std::panic::catch_unwind(|| run(&descs)) {
             Ok(Some(m)) => { println!("WITNESS {m}"); std::process::exit(1) }
@@ -169,6 +194,11 @@ fn main() {
     // several tags: order, separators, a hostile string next to other members
     let hostile = [format!("s:{}", hex("\",\"level\":\"error")), format!("s:{}", hex("x\"}\n{\"a\":\"b")), "i:-1".to_string(), "n:".to_string(), "b:1".to_string(), format!("s:{}", hex("\\"))];
     for a in &hostile { for b in &hostile { try_(vec![a.clone(), b.clone()], &mut n, &mut found); for c in hostile.iter().take(if thorough { 6 } else { 2 }) { try_(vec![a.clone(), b.clone(), c.clone()], &mut n, &mut found); } } }
+    // event times: the epoch itself, the first second after it, nanosecond counts with fewer than nine digits, today, far ahead
+    for secs in [0u64, 1, 9, 10, 999_999_999, 1_000_000_000, 1_681_457_536, 4_102_444_800, 18_000_000_000] { for nanos in [0u32, 5, 99, 100, 123_456_789, 999_999_999] {
+        n += 1;
+        match std::panic::catch_unwind(|| run_time(secs, nanos)) { Ok(Some(m)) => { if found.len() < 6 { found.push(m) } } Ok(None) => {} Err(_) => { if found.len() < 6 { found.push(format!("jsonl time secs={secs} nanos={nanos} expected=no-panic actual=panic")) } } }
+    } }
     // tag names that need escaping, alone and next to other members (a name is a JSON string like any other)
     let knames = ["a\"b", "a\\b", "x\":1,\"admin", "a\nb", "\u{1}", "\u{1f}", "\u{7f}", "caf\u{e9}\"s", "caf\u{e9}", "", "a b", "a:b", "a,b", "}", "{", "\t", "\u{2028}", "\u{1f600}", "\\u0041", "/"];
     for k in knames { for v in ["i:1", "n:", "s:78"] { let d = format!("k:{}:{v}", hex(k)); try_(vec![d.clone()], &mut n, &mut found); try_(vec!["i:-1".to_string(), d.clone(), "b:1".to_string()], &mut n, &mut found); } }
